@@ -207,7 +207,41 @@ class Executor:
     def e_List(self, e, st):
         return self.e_Tuple(e, st, is_list=True)
 
+    def _splice_pattern(self, e, st):
+        """
+        (*X[:I], E, *X[I + 1:])  ==  X with position I replaced by E, when 0 <= I < len(X) is
+        implied by the path condition (otherwise the general slicing semantics below apply).
+        """
+        el = e.elts
+        if len(el) != 3 or not isinstance(el[0], ast.Starred) or isinstance(el[1], ast.Starred) or not isinstance(el[2], ast.Starred):
+            return None
+        a, c = el[0].value, el[2].value
+        if not (isinstance(a, ast.Subscript) and isinstance(c, ast.Subscript) and isinstance(a.slice, ast.Slice) and isinstance(c.slice, ast.Slice)):
+            return None
+        if ast.unparse(a.value) != ast.unparse(c.value) or a.slice.lower is not None or c.slice.upper is not None:
+            return None
+        if a.slice.upper is None or c.slice.lower is None or a.slice.step or c.slice.step:
+            return None
+        it = ast.unparse(a.slice.upper)
+        if ast.unparse(c.slice.lower) not in (f"{it} + 1", f"({it}) + 1"):
+            return None
+        acc, raises = self.eval_many([a.value, a.slice.upper, el[1]], st)
+        if raises or len(acc) != 1:
+            return None
+        (base, idx, val), s = acc[0]
+        try:
+            seq = arith.as_seq(self.to_seq_value(base, s))
+        except Unsupported:
+            return None
+        i = z_int(idx)
+        if self.feasible(s, z3.Not(z3.And(i >= 0, i < seq.n))):
+            return None
+        return [Res("val", VSeq(z3.Store(seq.arr, i, z_int(val)), seq.n, seq.ek, seq.ecls), s)]
+
     def _display_with_star(self, e, st, is_list):
+        sp = self._splice_pattern(e, st)
+        if sp is not None:
+            return sp
         parts = [x.value if isinstance(x, ast.Starred) else x for x in e.elts]
         acc, raises = self.eval_many(parts, st)
         out = list(raises)
@@ -415,8 +449,9 @@ class Executor:
             if base.kinds:
                 return [Res("val", VBound(base, attr, text), st)]
             getter = self.vocab.getters.get(f"{base.cls}.{attr}") if base.cls else None
-            if getter is None:
-                getter = self.vocab.getters.get(attr)
+            if getter is not None:
+                return self.eval_with_self(getter, base, st)
+            getter = self.vocab.getters.get(attr)
             if getter is not None and not self.vocab.has(attr):
                 return self.eval_with_self(getter, base, st)
             if self.vocab.has(attr):
